@@ -88,7 +88,27 @@ def piecewise_eq(a, b, limit=400):
         cells = loops.split_cases({0: a, 1: b}, limit=limit)
     except sym.Undecided:
         return False
+    cells = [(c, v) for c, v in cells if not _exhausted_then_more(c)]
     return bool(cells) and all(sym.sem_eq(v[0], v[1]) for _c, v in cells)
+
+
+NTH = "core::iter::traits::iterator::Iterator::nth"
+
+
+def _exhausted_then_more(conds):
+    """a cell in which an iterator's i-th element is absent but a later one is present: impossible for the fused iterators
+    of core/alloc (once `next` returns None it keeps returning None)"""
+    none_at, some_at = {}, {}
+    for c in conds:
+        if len(c) == 3 and c[0][0] == "discr" and c[0][1][0] == "call" and c[0][1][1].endswith("Iterator::nth") and sym.is_c(c[0][1][2][1]):
+            base, i = c[0][1][2][0], c[0][1][2][1][1]
+            is_some = c[2] == ((1, 1),)
+            is_none = not any(lo <= 1 <= hi for lo, hi in c[2])
+            if is_some:
+                some_at.setdefault(base, []).append(i)
+            elif is_none:
+                none_at.setdefault(base, []).append(i)
+    return any(i < j for b, ns in none_at.items() for i in ns for j in some_at.get(b, []))
 
 
 def expect(chk, rule, anchor, got, want, where=None, what="value", key=None):
